@@ -18,7 +18,7 @@ from .core import Machine, Violation
 from . import tables
 
 from scinumtools.units import Quantity, UnitEnvironment
-from scinumtools.units.unit_types import UnitType
+from scinumtools.units.unit_types import UnitType, StandardUnitType, TemperatureUnitType
 from scinumtools.units import settings as S
 from scinumtools.dip import DIP
 
@@ -43,7 +43,11 @@ class CustomTypeB(UnitType):
         return False
 
 
-CUSTOM_TYPES = {"A": CustomTypeA, "B": CustomTypeB}
+# "S"/"T": a custom unit may also name a *built-in* conversion class as its definition;
+# the scope must then leave that class in the table when it ends
+CUSTOM_TYPES = {"A": CustomTypeA, "B": CustomTypeB, "S": StandardUnitType,
+                "T": TemperatureUnitType}
+BUILTIN_TYPES = ("S", "T")
 
 _CANDIDATES = ["foo", "qux", "zork", "vex", "nub", "zyx", "abc", "qqq", "www", "yyx", "zzx",
                "jjx", "vvx", "xqx", "qxx", "eex", "oox", "iix", "woof", "jiffy", "zap", "wib",
@@ -208,7 +212,7 @@ class UnitScopeMachine(Machine):
             if self.cfg["prefix_units"] and rng.random() < 0.4:
                 u["prefixes"] = rng.choice([True, ["k", "M"], ["m"], False])
             if self.cfg["custom_types"] and rng.random() < 0.3:
-                u["defn"] = rng.choice(["A", "B"])
+                u["defn"] = rng.choice(["A", "B", "A", "B", "S", "T"])
             elif rng.random() < 0.15:
                 u["defn"] = "2*m"
             if rng.random() < 0.2:
@@ -394,7 +398,7 @@ class UnitScopeMachine(Machine):
         want_types = []
         for sc in self.stack:
             for u in sc["units"]:
-                if u.get("defn") in CUSTOM_TYPES:
+                if u.get("defn") in CUSTOM_TYPES and u["defn"] not in BUILTIN_TYPES:
                     t = CUSTOM_TYPES[u["defn"]]
                     if t not in want_types:
                         want_types.append(t)
@@ -426,9 +430,21 @@ class UnitScopeMachine(Machine):
                             {"symbol": sym, "got": float(v), "want": factor},
                             signature="C09/usable_inside/value")
 
+    def _exit(self, sc, info, where):
+        """Leave a scope exactly as the with-statement does; the scope's own cleanup must
+        not fail (an exception here would replace the body's exception and leave the
+        tables as they are)."""
+        try:
+            sc["env"].__exit__(*info)
+        except Exception as e:
+            raise Violation("scope_exit_failed",
+                            {"where": where, "error": [type(e).__name__, repr(e.args)[:200]],
+                             "diff": tables.diff(sc["pre"], tables.snapshot())},
+                            signature=f"C09/exit_failed/{where}")
+
     def _close(self, where):
         sc = self.stack.pop()
-        sc["env"].__exit__(None, None, None)
+        self._exit(sc, (None, None, None), where)
         self._same_as(sc["pre"], where, "leak/after_close")
 
     def apply(self, op):
@@ -455,7 +471,7 @@ class UnitScopeMachine(Machine):
                 info = (type(e), e, e.__traceback__)
                 for _ in range(depth):
                     sc = self.stack.pop()
-                    sc["env"].__exit__(*info)
+                    self._exit(sc, info, "raise")
                     self._same_as(sc["pre"], "raise", "leak/after_body_exception")
             self.stats.fault("body_" + ("interrupt" if op["exc"] == "KeyboardInterrupt"
                                         else "exception"), True)
